@@ -177,6 +177,13 @@ def run_inertia(ctx, p):
         ok = type(Ssum) is sm.SpatialInertia
         ctx.judge('inertia', ok and rel(Ssum.A, w2, float(np.max(np.abs(w2)))) <= TOL, dict(sig, kind='sum_wrong'),
                   lambda: 'I1 + I2 = %s, matrix sum is %s' % (core.short(getattr(Ssum, 'A', Ssum), 300), core.short(w2, 300)))
+        # point masses (rotational inertia omitted), several built one after the other: each is m [[-C C, C], [C', 1]] of its own m, c
+        Z3 = np.zeros((3, 3))
+        pm = [sm.SpatialInertia(m, c), sm.SpatialInertia(m2, c2), sm.SpatialInertia(m=m, r=c)]
+        for Jp, (mm, cc) in zip(pm, ((m, c), (m2, c2), (m, c))):
+            wp = ref.parallel_axis_inertia(mm, cc, Z3)
+            ctx.judge('inertia', rel(Jp.A, wp, float(np.max(np.abs(wp)))) <= TOL, dict(sig, kind='point_mass_wrong'),
+                      lambda: 'SpatialInertia(m=%r, r=%s) = %s, the point-mass matrix is %s' % (mm, cc, core.short(Jp.A, 300), core.short(wp, 300)))
         # products
         x = np.asarray(p['x'], float)
         for cname, rcls in (('SpatialAcceleration', 'SpatialForce'), ('SpatialVelocity', 'SpatialMomentum')):
